@@ -19,9 +19,11 @@ REQUIRED_THEOREMS = [
     'C14_sorted_rows', 'C14_row_order_irrelevant', 'C14_posterior_irrelevant_rows',
     'C14_data_follows_outputs', 'C14_map_order_irrelevant', 'C14_observable_types',
     'C14_posterior', 'C14_posterior_exists', 'C14_posterior_of_frame', 'C14_prefix_posterior_partial',
-    'C14_unsorted_counterexample', 'C14_single_individual_counterexample', 'C14_selector_counterexample']
+    'C14_unsorted_counterexample', 'C14_single_individual_counterexample', 'C14_selector_counterexample',
+    'C14_selector_zero']
 RULE = ('long-format frames with 1-5 (sometimes 11) individuals (int / float / str / mixed-object ID columns, IDs '
-        'that coincide as strings, IDs whose string order differs from their order of appearance), 1-3 outputs '
+        'that coincide as strings, IDs whose string order differs from their order of appearance, the ID 0 / 0.0 / "0" '
+        'at any position), 1-3 outputs '
         'mapped to observables (explicit / identity / automatic map; explicit maps written in any order, with extra '
         'keys, observable names and map values as numbers or strings), unbalanced and tied times, rows with missing '
         'value / time, unrelated observables, foreign columns, renamed keys, arbitrary index labels (permuted, '
@@ -30,7 +32,7 @@ RULE = ('long-format frames with 1-5 (sometimes 11) individuals (int / float / s
         'fully shuffled (rows of an individual in any time order); with / without population model (pooled / '
         'heterogeneous / log-normal / Gaussian blocks, covariate-dependent blocks), fixed parameters, both set-up '
         'orders, a discarded earlier set_data; every individual selected by its string key and by the value its '
-        'ID has in the frame; toy mechanistic model with a closed-form dose response, PKPD library model on the '
+        'ID has in the frame (Python and numpy scalars, boundary IDs first); doses of amount 0, parameters fixed at 0; toy mechanistic model with a closed-form dose response, PKPD library model on the '
         'reference integrator for a few cases. non-trivial = >=2 individuals and (interleaved / sorted / shuffled '
         'layout, or dose rows, or covariates, or missing cells); distinct = distinct (layout, id type, #ids, '
         '#outputs, population blocks, dosing mode, fixed, set-up order)')
@@ -207,6 +209,9 @@ def gen_case(rng, layout=None, force=None):
     nums = [int(x) for x in rng.choice(np.arange(1, 40), size=n_ids, replace=False)]
     if rng.random() < 0.15:
         nums[0] = -nums[0]
+    if rng.random() < 0.3:
+        # boundary value: the identifier 0 (0, 0.0, '0' are falsy / truthy in different ways) at any position
+        nums[int(rng.integers(n_ids))] = 0
 
     def rid(n, variant=0):
         if id_type == 'int':
@@ -245,7 +250,7 @@ def gen_case(rng, layout=None, force=None):
             for t in dts:
                 du = [0.25, 0.5, 1.0, None][int(rng.integers(4))]
                 ob = None if rng.random() < 0.7 else dose_label
-                drows.append([None, t, ob, None, float(rng.choice([0.5, 1.0, 2.0, 3.0])), du])
+                drows.append([None, t, ob, None, float(rng.choice([0.0, 0.5, 1.0, 2.0, 3.0], p=[0.08, 0.23, 0.23, 0.23, 0.23])), du])
             if rng.random() < 0.2:   # dose without time: ignored
                 drows.append([None, None, None, None, 1.0, 0.5])
             if rng.random() < 0.3 and drows:
@@ -291,7 +296,8 @@ def gen_case(rng, layout=None, force=None):
     fixed_bottom = None
     fixed_top = None
     if fix_b:
-        fixed_bottom = [int(rng.integers(n_mech + n_err)), float(np.round(rng.uniform(0.6, 1.4), 2))]
+        fixed_bottom = [int(rng.integers(n_mech + n_err)),
+                        0.0 if rng.random() < 0.1 else float(np.round(rng.uniform(0.6, 1.4), 2))]
     if has_pop and rng.random() < 0.3:
         fixed_top = [int(rng.integers(1000)), float(np.round(rng.uniform(0.6, 1.4), 2))]
     order = 'A'
@@ -777,33 +783,51 @@ def check_posterior(ctx, chi, case, c, post, mo, spec, which, sel):
         ctx.spec('C14.get_dosing_regimens', regs is None, inp)
 
 
+def selector_forms(rid):
+    """the values a caller may pass for an ID cell: the Python scalar and its numpy twins"""
+    kind, v = rid
+    if kind == 'int':
+        return [('int', int(v)), ('np.int64', np.int64(v)), ('np.int32', np.int32(v))]
+    if kind == 'flt':
+        return [('float', float(v)), ('np.float64', np.float64(v))]
+    return [('str', str(v)), ('np.str_', np.str_(v))]
+
+
 def check_selectors(ctx, chi, case, c, spec):
-    """#18: an individual can be selected by the value its ID has in the frame"""
-    seen = set()
+    """an individual can be selected by the value its ID has in the frame (614a431), whatever that value is —
+    including 0 / 0.0 — and in whatever scalar type the caller holds it"""
+    cells = []
     for r in case['rows']:
-        rid = tuple(r[0])
-        if rid in seen:
-            continue
-        seen.add(rid)
-        cell = id_cell(r[0])
-        mo_l = ctx.model('C14.run', wire_config(case), wire_rows(case),
-                         wire_rows({'rows': [r]})[0][0], None)
-        key = ctx.model('C14.key', wire_rows({'rows': [r]})[0][0])[0]
+        if r[0] not in cells:
+            cells.append(r[0])
+    # boundary values first (0, 0.0, '0'), then the others; at most four cells per case
+    cells = sorted(cells, key=lambda rid: 0 if str(rid[1]) in ('0', '-0') else 1)[:4]
+    first_key = spec[0]['id']
+    for rid in cells:
+        wire_id = wire_rows({'rows': [[rid, None, None, None, None, None, []]]})[0][0]
+        mo_l = ctx.model('C14.run', wire_config(case), wire_rows(case), wire_id, None)
+        key = ctx.model('C14.key', wire_id)[0]
         try:
-            c.get_log_posterior(individual=key)
+            by_key = c.get_log_posterior(individual=key)
         except Exception:  # noqa
-            continue          # this individual cannot be built at all (another finding); not a selector matter
-        try:
-            got = c.get_log_posterior(individual=cell).get_id()
-        except Exception as e:  # noqa
-            got = core.errkind(e)
+            continue          # this individual cannot be built at all (judged elsewhere); not a selector matter
+        x = eval_points(by_key, case['eval_seed'], 1)[0]
+        v_key = safe_eval(by_key, x)
         want_model = mo_l[0] if mo_l[0] != 'ok' else mo_l[3][1][0]
-        if not (got != want_model and got.startswith('err') and mo_l[0].startswith('err')):
-            ctx.agree('C14.selector', got, want_model, {'case': case, 'selector': r[0]})
-        ctx.spec('C14.select_by_original_id', got == key, {'case': case, 'selector': r[0]},
-                 {'selector': repr(cell), 'got': got, 'wanted': key})
-        if len(seen) >= 3:
-            break
+        for form, cell in selector_forms(rid):
+            inp = {'case': case, 'selector': rid, 'selector_type': form}
+            try:
+                post = c.get_log_posterior(individual=cell)
+                got = post.get_id()
+                v = safe_eval(post, x)
+            except Exception as e:  # noqa
+                got, v = core.errkind(e), None
+            if form in ('int', 'float', 'str') and \
+                    not (got != want_model and got.startswith('err') and mo_l[0].startswith('err')):
+                ctx.agree('C14.selector', got, want_model, inp)
+            ctx.spec('C14.select_by_original_id', got == key and core.close(v, v_key), inp,
+                     {'selector': repr(cell), 'got': got, 'wanted': key, 'value': v, 'value_by_key': v_key,
+                      'first_individual': first_key})
 
 
 def check_predictive(ctx, chi, case, c):
@@ -1199,8 +1223,8 @@ def run(ctx):
     chi = core.import_chi()
     ctx.guard(corpus, ctx, chi)
     ctx.guard(observable_dtype, ctx, chi)
-    n = 320 if ctx.tier == 'quick' else 6500
-    n_inv = 50 if ctx.tier == 'quick' else 600
+    n = 320 if ctx.tier == 'quick' else 5800
+    n_inv = 50 if ctx.tier == 'quick' else 550
     for i in range(n):
         rng = ctx.sub_rng(i)
         case = gen_case(rng)
